@@ -192,6 +192,23 @@ class PartialProfile(Profile):
             ):
                 base = _unparse(sub.func.value)
                 yield "IndexError", self._len_guards(ctx, cfg, base, 1), f"{base}.pop()"
+        # ---- fixed-size unpack of a slice of a listed buffer: struct.error when the buffer is shorter than the slice end
+        if "index" in ops and isinstance(sub, ast.Call) and sub.args:
+            names = ops["index"]
+            a0 = sub.args[-1] if (dotted(sub.func) or "").endswith("struct.unpack") or (dotted(sub.func) or "") == "unpack" else sub.args[0]
+            is_unpack = False
+            fv = prog.try_const(sub.func, f.module, owner.cls, None) if isinstance(sub.func, (ast.Name, ast.Attribute)) else None
+            from .loader import StructMethod as _SM
+
+            if isinstance(fv, _SM) and fv.method == "unpack":
+                is_unpack = True
+            if (dotted(sub.func) or "").endswith("struct.unpack"):
+                is_unpack = True
+            if is_unpack and isinstance(a0, ast.Subscript) and isinstance(a0.slice, ast.Slice) and a0.slice.upper is not None:
+                base = _unparse(a0.value)
+                hi = prog.try_const(a0.slice.upper, f.module, owner.cls, None)
+                if (names is True or base in names) and isinstance(hi, int) and hi > 0:
+                    yield "struct.error", self._len_guards(ctx, cfg, base, hi), f"unpack({base}[:{hi}])"
         # ---- enum constructors
         if "enum" in ops and isinstance(sub, ast.Call) and len(sub.args) == 1 and not sub.keywords:
             d = dotted(sub.func)
